@@ -19,7 +19,6 @@ rules : orders of lists (R-list of from_sparse / merge_Rvectors, order of the pa
         from the package raising on a specification-chosen input.
 """
 import copy
-import math
 import os
 import random
 import zlib
@@ -870,9 +869,9 @@ def _check(rep, pid, tier):
             prefixes = {k[:n] for k in states for n in range(1, len(k))}
             leaves = sorted((k for k in states if k not in prefixes), key=repr)
             nleaves = len(leaves)
-            cap = 9000 if thorough else 2500
+            cap = 30000 if thorough else 2500
             if nleaves > cap:
-                # every behaviour of length <= 2 prefixes is still covered: a seeded sample of the maximal behaviours
+                # a seeded sample of the maximal behaviours (sorted first: the dump order of TLC is not deterministic)
                 random.Random(seed() + 11).shuffle(leaves)
                 leaves = sorted(leaves[:cap], key=repr)
             followed = 0
